@@ -21,6 +21,7 @@ Undef       == [t |-> "undef"]
 Opq(id)     == [t |-> "opq", id |-> id]          \* opaque object with identity
 PVNode(id)  == [t |-> "pvnode", id |-> id]       \* a vnode produced elsewhere
 Fn(id)      == [t |-> "fn", id |-> id]           \* a function with identity
+FnR(id, r)  == [t |-> "fn", id |-> id, ret |-> r] \* ... whose calls return r
 AnonFn      == [t |-> "fn", id |-> "anon"]       \* a function created by the evaluated code
 Arr(xs)     == [t |-> "arr", xs |-> xs]
 Obj(es)     == [t |-> "obj", es |-> es]          \* es: sequence of <<key, value>>, insertion order
@@ -81,7 +82,7 @@ OnName(k) ==                     \* transformOn: "on" + capitalised key
 
 IsOnKey(k) ==                    \* /^on[^a-z]/ over the prop-key alphabet in use
   k \in {"onClick", "onFoo", "onBar", "onUpdate:modelValue", "onUpdate:foo", "onUpdate:bar",
-         "onMouseenter", "on:x", "onUpdate:x", "onUpdate:m"}
+         "onMouseenter", "on:x", "onUpdate:x", "onUpdate:m", "onUpdate:dyn", "onUpdate:title"}
 
 (* ------------------------------------------------------------------ *)
 (* Vue: normalizeClass / normalizeStyle                                *)
